@@ -64,7 +64,7 @@ fn first_ok(v: &str) -> bool {
 fn last_ok(v: &str) -> bool {
     v.contains(' ') || v.chars().last().map_or(true, |c| !c.is_whitespace())
 }
-fn in_domain(vals: &[String]) -> bool {
+pub fn in_domain(vals: &[String]) -> bool {
     vals.iter().all(|v| safe(v)) && vals.first().map_or(true, |v| first_ok(v)) && vals.last().map_or(true, |v| last_ok(v))
 }
 
